@@ -114,9 +114,17 @@ TABLE = {
             "is refused with ValueError also when nested; a program without parameters is refused; is_template iff the "
             "parameter set is non-empty; an instantiated program has no parameters and keeps name/version/target/type/"
             "modes; 2-D array values expand to name_i_j per element, other iterables are refused; re-insertion of array "
-            "parameters (C05). Partial: agreement of Python-number and NumPy arithmetic on the substituted text is "
-            "covered by the oracle loads(t)(**v) vs loads(substituted text), 1e-9.",
-            "Lean 4 proof (induction over symbolic trees) + correspondence", "DESIGN.md 7 (C04)",
+            "parameters (C05). Script level (Props/C04Script.lean): for a template made of statements, for-loops and "
+            "parameter-free declarations, with every {p} replaced by the bracketed literal of its value "
+            "(substPScript), calling the loaded template with the values returns exactly the program that loading the "
+            "substituted script returns (C04_script_instantiation, with the one-expression and one-statement versions); "
+            "hypotheses named: LawfulFmt (float repr reads back), RecipLaw (x*y**-1 in Python = NumPy reciprocal), both "
+            "loads succeed; a concrete template run through both routes by kernel evaluation. The model's substituted "
+            "script is printed and loaded by the implementation on every run (SUBSTP). Partial: agreement of "
+            "Python-number and NumPy arithmetic on the substituted text is covered by the oracle loads(t)(**v) vs "
+            "loads(substituted text), 1e-9; declarations holding parameters are outside the script-level theorem "
+            "(declared type not re-applied: open finding).",
+            "Lean 4 proof (induction over symbolic trees; simulation between the two walks) + correspondence", "DESIGN.md 7 (C04)",
             "SymPy (lambdify, free_symbols) is a contract boundary; symbolic values are the written trees."),
     "C05": (True,
             "Theorems (Props/C05.lean): a successfully assembled array has as many rows as written, element (r, c) of "
